@@ -21,7 +21,7 @@ At    == More /\ Ev.t = now
 TInit == tid \in 1..NTraces /\ l = 2 /\ Init
 
 TTick == /\ More /\ Ev.t > now /\ now' = Ev.t
-         /\ UNCHANGED <<ist, due, pend, handle, runTh, startT, starts, early, calls, tid, l>>
+         /\ UNCHANGED <<ist, due, pend, handle, runTh, startT, starts, per, stopped, limit, calls, tid, l>>
 
 TCall   == At /\ Ev.e = "call" /\ Step /\ Call(Ev.th, Ev.op, Ev.item, Ev.d)
 TRet    == At /\ Ev.e = "ret" /\ Step /\ pend[Ev.th].res = Ev.res /\ Ret(Ev.th)
